@@ -25,7 +25,7 @@ func (C16) Runs(t core.Tier) int {
 	if t == core.Thorough {
 		return 200_000
 	}
-	return 5_000
+	return 8_000
 }
 func (C16) Rule() string {
 	return "One run = a list of 1..8 top-level statements with known individual texts (one-line statements, multi-line blocks, array literals and strings spanning lines, function definitions and later calls, loops, strings holding { } [ ] ; \" \\\" \\\\ and high bytes, lines longer than 4096 bytes) laid out by the tape into a stream: indentation, comments holding brackets/quotes on any line whose end is outside a string, blank lines inside blocks and array literals, comment-only and blank lines between statements, final newline present or absent. The stream is executed (a) in process by the real node.Loop over the real FReader on a real file, (b) by the built cmd/calc in file mode, (c) by cmd/calc as REPL with stdin redirected from a regular file, (d) by cmd/calc -eval for self-contained statements. Oracle (real vs real): an in-process twin session is given the statements one at a time; file-mode stdout must equal the concatenated write() output, REPL stdout must equal banner + per statement output + '> ' + displayed value, -eval stdout must equal output + value; exit status 0. Non-trivial = >= 2 multi-line statements, or a special character inside a string/comment, or no final newline. Distinct = hash of statement kinds and layout decisions."
